@@ -266,6 +266,8 @@ structure Mon where
   /-- C08 ghost: the deadline the admins' calls gave each subkey's allowance (changed only by an Increase /
   Decrease that names an expiry; an entry deleted by a Decrease starts afresh) -/
   gexp : AMap String Expiration := []
+  /-- C07/C17 ghost: the admin list as set by instantiation and by every successful UpdateAdmins -/
+  gadmins : Option (List String) := none
 
 def mk (p sig d : String) : Finding := ⟨p, sig, d⟩
 
@@ -355,6 +357,21 @@ def monitorOp (mu : Mon) (prev : Args) (toks : List String) (implOk : Bool) (out
        else if kind != "execute" && implOk && out.str "msgs" != "" then
         [mk "C07" "C07/spurious-message" s!"{kind} emitted {out.str "msgs"}"]
        else [])
+    -- ghost admin list: what instantiation and the successful UpdateAdmins calls said
+    let submitted : List String := (a.list "admins").map fun x => (parseAddr x).2
+    let gPrevAdmins := mu.gadmins
+    let mu : Mon := if isInst && implOk then { mu with gadmins := some cAdmins }
+      else if !fresh && kind == "update_admins" && implOk then { mu with gadmins := some submitted } else mu
+    let fadm := if fresh then [] else
+      -- a successful UpdateAdmins takes effect
+      (if kind == "update_admins" && implOk && cAdmins != submitted then
+        [mk "C17" "C17/update-admins-no-effect" s!"submitted={submitted} stored={cAdmins}",
+         mk "C07" "C07/admin-set-not-updated" s!"submitted={submitted} stored={cAdmins}"] else []) ++
+      -- a relay for a caller that the admin calls had removed and whose grants do not cover the messages
+      (match gPrevAdmins with
+        | some ga => if kind == "execute" && implOk && !ga.contains snd && !(mu.sub && covered) then
+            [mk "C07" "C07/relay-by-removed-admin" s!"sender={snd} admins_as_set={ga}"] else []
+        | none => [])
     -- ---------- C08
     let keys := (pRaw.map (·.1) ++ cRaw.map (·.1)).eraseDups
     let changedAl := keys.filter fun k => AMap.get? pRaw k != AMap.get? cRaw k
@@ -479,7 +496,7 @@ def monitorOp (mu : Mon) (prev : Args) (toks : List String) (implOk : Bool) (out
         if implOk && wasAdmin then none
         else some (mk "C17" "C17/grant-by-non-admin" s!"permissions of {k} changed by {kind} from {snd}"))
     let mu := if !cMut && mu.frozenCfg.isNone then { mu with frozenCfg := some (cur.str "admins", "false") } else mu
-    (mu, f7 ++ f8 ++ fg ++ f17 ++ f17x)
+    (mu, f7 ++ fadm ++ f8 ++ fg ++ f17 ++ f17x)
 
 def wlScen : Scen MState Mon where
   init h := { sub := false, pool := h.list "pool" }
